@@ -152,7 +152,7 @@ def reserved_size(spec):
     if k == 'ed25519':
         return 64
     if k == 'rsa':
-        return K.KEYS[spec['key']]['bits'] // 8
+        return (K.KEYS[spec['key']]['bits'] + 7) // 8      # the modulus need not be a whole number of octets
     if k == 'ecdsa':
         return {'P-256': 72, 'P-384': 104, 'P-521': 140}[K.KEYS[spec['key']]['curve']]
     if k == 'synthetic':
